@@ -273,6 +273,15 @@ class MirDB:
             ex2 = [f for f in ex if f.name.startswith(caller_fn.name)]
             if len(ex2) == 1:
                 return ex2[0]
+        if caller_fn is not None and not ex:
+            # a constant item declared inside an enclosing function / closure of the caller (e.g. tokio::select!'s BRANCHES):
+            # the reference spells the impl as `<T as Trait>::m`, the definition as `<impl at file:line>::m` -- match by scope
+            scope = caller_fn.name
+            while '::' in scope:
+                hit = [f for f in cands if f.name == scope + '::' + last]
+                if len(hit) == 1:
+                    return hit[0]
+                scope = scope.rsplit('::', 1)[0]
         return None
 
     def closure_fn(self, agg_name, creator=None):
